@@ -276,7 +276,7 @@ def handle : List String → String
     match t.toInt? with
     | some typ =>
       s!"msm4={isMSM4 typ} msm7={isMSM7 typ} msm={isMSM typ} const={(constellation typ).replace " " "_"} " ++
-      s!"hdr={headerAccepts typ} analyse={(analyseDecoder typ).toString} ts={isMSM typ} title={titleNonEmpty typ}"
+      s!"hdr={headerAccepts typ} analyse={(analyseDecoder typ).toString} ts={isMSM typ} title={titleNonEmpty typ} htype={typ}"
     | none => "bad-op"
   | ["crc", h] =>
     match parseHex h with
